@@ -112,6 +112,9 @@ def refine_key(key, what, form):
     if not m or form is None:
         return key
     i = m.group(1)
+    osm_rows = [r for r, _ in form.walk() if (r.type or "").startswith("osm")]
+    if i.startswith("/") and any(f"/{r.name}/" in i for r in osm_rows):
+        return key + ":translated-osm-tag"
     if "-" in i and not i.startswith("/"):
         ln, _, idx = i.rpartition("-")
         rows = [c for c in form.choices.get(ln, []) if not c.get("__blank")]
@@ -130,6 +133,12 @@ def run_shard(ctx):
             continue
         rng = ctx.rng("case", i)
         form = gen.gen_form(rng, sparse_cfg(rng))
+        if i % 16 == 5:
+            # osm question with (possibly translated) tags from the osm sheet
+            langs = form.meta.get("langs") or []
+            hdr = [f"label::{L}" for L in langs] if langs and rng.random() < 0.7 else ["label"]
+            form.survey.append(Row("q", "osm osm_tags", "osmq", {h: f"osm {h}" for h in hdr}))
+            form.extra_sheets["osm"] = (["list_name", "name"] + hdr, [["osm_tags", "building"] + [f"B {h}" for h in hdr], ["osm_tags", "amenity"] + [f"A {h}" for h in hdr[:1]] + [None] * (len(hdr) - 1)])
         if rng.random() < 0.3:
             form.settings.pop("default_language", None)
             if rng.random() < 0.5:
